@@ -71,7 +71,7 @@ Pop(s) == /\ T.k \in {"vec", "str"}
 Ins(s) == /\ IsUnordered(T)
           /\ Len(Side(s)) < MaxLen
           /\ \E x \in ElemOf[ty], p \in 1..(Len(Side(s)) + 1) :
-                /\ T.k = "heap" \/ ~HasKey(Side(s), x)
+                /\ ~(T.k # "heap" /\ HasKey(Side(s), x))
                 /\ SetSide(s, InsertAt(Side(s), p, x))
 
 Upd(s) == /\ T.k = "map"
@@ -79,7 +79,7 @@ Upd(s) == /\ T.k = "map"
                 /\ v # Side(s)[i][2]
                 /\ SetSide(s, [Side(s) EXCEPT ![i] = <<Side(s)[i][1], v>>])
 
-Rem(s) == /\ IsUnordered(T) \/ T.k = "bmap"
+Rem(s) == /\ T.k \in {"set", "heap", "map", "bmap"}
           /\ \E i \in DOMAIN Side(s) : SetSide(s, RemoveAt(Side(s), i))
 
 Permute(s) == /\ IsUnordered(T)
